@@ -9,6 +9,9 @@
       parse    CmdParse.parse                       (twice, same parser object; option defaults before/between/after)
       command  Command(config).parse_execute        (GLOBAL + command section -> overwrite_defaults; twice)
       main     DoitMain.run -> DoitCmdBase.execute  (INI file or API config, DOIT_CONFIG -> update_defaults, exit code)
+      premain  DoitMain.run with a loader that has options of its own (with env_var), some written in front of the
+               command name (`doit -f x -k vcmd ...` -> opt_vals -> params.update); observed where loader.setup
+               receives the parameters and after DOIT_CONFIG
       task     Task(params).init_options            (per-task config section values)
       creator  @task_params creator via loader.load_tasks (section task:<name>)
       realcmd  the CmdParse each real doit command builds from its own option table
@@ -41,6 +44,7 @@ META = {
                 'doit/cmd_base.py::Command.cmdparser', 'doit/cmd_base.py::Command.parse_execute',
                 'doit/cmd_base.py::DoitCmdBase.get_options', 'doit/cmd_base.py::DoitCmdBase.execute',
                 'doit/doit_cmd.py::DoitMain.run', 'doit/doit_cmd.py::DoitMain.__init__',
+                'doit/doit_cmd.py::DoitMain.process_args',
                 'doit/task.py::Task.init_options', 'doit/loader.py::load_tasks'],
     'technique': 'Lean 4 proofs over an executable model of getopt + CmdOption/CmdParse/DefaultUpdate (round trip of '
                  'rendered assignments by induction, rejection, purity of parse as a state transformer, precedence) '
@@ -69,8 +73,8 @@ META = {
     'rule': 'option tables of 1-6 options over bool/int/str/list with short/long/inverse/choices/env_var (longs drawn '
             'from a pool with prefix relations; 10% ill-formed tables for (K) only) x structured assignment lists in all '
             'rendering forms (+ `--`, positionals) or malformed injections (9 kinds) or garbage token streams x env x '
-            'config sections (raw strings and typed values; API dict, INI file, pyproject.toml) x DOIT_CONFIG, on 5 '
-            'code paths; 35% of the cases with an earlier, different command line handled first by the same parser / '
+            'config sections (raw strings and typed values; API dict, INI file, pyproject.toml) x DOIT_CONFIG, on 6 '
+            'code paths (one with loader options written before the sub-command name x environment x config); 35% of the cases with an earlier, different command line handled first by the same parser / '
             'command object / process; + all argv up to length 2 (quick) / 3 (thorough) over 16 tokens; + the option '
             'table of every real doit command: each option addressed once through each of its names (the option meant '
             'must get the value, no other may change) and random assignment lists; non-trivial = at least one '
@@ -85,7 +89,7 @@ META = {
 
 
 
-PATHS = ['parse', 'parse', 'command', 'main', 'task', 'creator']
+PATHS = ['parse', 'parse', 'command', 'main', 'premain', 'task', 'creator']
 
 
 # ------------------------------------------------------------------------------------------------ cases
@@ -94,7 +98,27 @@ def gen_case(rng, base, path=None):
     path = path or rng.choice(PATHS)
     case = {'path': path, 'env': [], 'ini': [], 'glob': [], 'dodo': [], 'asgs': None, 'sep': False, 'pos': [],
             'malformed': None, 'n_base': 0, 'ini_mode': 'api'}
-    if path == 'main':
+    if path == 'premain':
+        # a loader with options of its own (most with env_var), some of them written in front of the command name
+        gen = optlib.gen_spec(rng, wf_bias=1.0)
+        def clash(g):
+            ls = [o['long'] for o in g if o['long']] + [o['inverse'] for o in g if o['long'] and o['inverse']]
+            return len(ls) != len(set(ls))
+        while len(gen) < 2 or clash(gen):       # `no-<long>` as inverse may collide with a long of the pool
+            gen = optlib.gen_spec(rng, wf_bias=1.0)
+        k = rng.randint(1, len(gen) - 1)
+        free = [e for e in optlib.ENVS if e not in [o['env_var'] for o in gen]]
+        for o in gen[:k]:
+            if o['type'] == 'list':
+                o.update(type='str', default=rng.choice(['', 'dflt']), choices=[])
+            if not o['env_var'] and free and rng.random() < 0.8:
+                o['env_var'] = free.pop()
+        case['lspec'] = gen[:k]
+        case['spec'] = base + gen
+        case['n_base'] = len(base)
+        case['pre_asgs'] = optlib.gen_asgs(rng, gen[:k], n=rng.choice([0, 1, 1, 2, 3]), good_p=1.0)
+        case['pre'] = optlib.render(case['pre_asgs'], False, [])
+    elif path == 'main':
         # the command's table = options DoitCmdBase adds + generated ones (names / letters kept apart from them)
         gen = optlib.gen_spec(rng, wf_bias=0.95)
         case['spec'] = base + gen
@@ -108,9 +132,9 @@ def gen_case(rng, base, path=None):
         env, ini, glob, dodo = optlib.gen_sources(rng, gen_opts, good_p=0.93)
         case['env'] = env
         case['ini'] = ini
-        if path in ('command', 'main'):
+        if path in ('command', 'main', 'premain'):
             case['glob'] = glob
-        if path == 'main':
+        if path in ('main', 'premain'):
             case['dodo'] = dodo
             r = rng.random()
             if r < 0.3 and optlib.toml_file_ok(case):
@@ -126,7 +150,7 @@ def gen_case(rng, base, path=None):
         case['argv'] = optlib.gen_garbage_argv(rng, gen_opts)
     else:
         case['asgs'] = optlib.gen_asgs(rng, gen_opts, good_p=0.93)
-        if kind > 0.9:
+        if kind > 0.9 and path != 'premain':
             case['asgs'] = optlib.gen_asgs(rng, gen_opts, good_p=0.93, abbrev_p=0.5)
             case['abbrev'] = True
         case['sep'] = rng.random() < 0.25
@@ -141,10 +165,12 @@ def gen_case(rng, base, path=None):
         prev = optlib.render(optlib.gen_asgs(rng, gen_opts, n=rng.randint(1, 4), good_p=0.95), False, [])
         if not any(a == '' or ('=' in a and not a.startswith('-')) for a in prev):
             case['prev_argv'] = prev
-    if path in ('main', 'creator'):
+    if path == 'premain' and any(a == '' for a in case['pre']):
+        return gen_case(rng, base, path)
+    if path in ('main', 'premain', 'creator'):
         # '' as an argument crashes DoitMain.process_args / loader.load_tasks (arg[0]) before any option parsing;
         # `x=1` positionals are command-line variables for DoitMain: both are outside this property
-        if any(a == '' for a in case['argv']) or (path == 'main' and any('=' in a and not a.startswith('-')
+        if any(a == '' for a in case['argv']) or (path in ('main', 'premain') and any('=' in a and not a.startswith('-')
                                                                          for a in case['argv'])):
             return gen_case(rng, base, path)
     if path == 'creator' and (case['pos'] or case['sep'] or any(a == 't' for a in case['argv'])):
@@ -161,7 +187,20 @@ def model_request(case):
     req = {'model': 'opt', 'spec': case['spec'], 'env': case['env'], 'ini': case['ini'], 'glob': case['glob'],
            'dodo': case['dodo'], 'argv': case['argv']}
     req['op'] = 'parse' if case['path'] in ('parse', 'realcmd') else 'pipeline'
+    if case['path'] == 'premain':
+        req.update(op='prepipeline', lspec=case['lspec'], pre=case['pre'])
     return req
+
+
+def aux_requests(case):
+    """premain: what the property gives (a) the options written in front of the command name, (b) every option at the
+    moment the loader receives them (DOIT_CONFIG not loaded yet)"""
+    if case['path'] != 'premain' or case['asgs'] is None:
+        return {}
+    pre = {'model': 'opt', 'op': 'spec', 'spec': case['lspec'], 'env': [], 'ini': [], 'glob': [], 'dodo': [],
+           'asgs': case['pre_asgs'], 'sep': False, 'pos': []}
+    nod = dict(spec_request(case), dodo=[])
+    return {'pre': pre, 'nodod': nod}
 
 
 def spec_request(case):
@@ -176,7 +215,7 @@ def run_impl(case, workdir):
         return optlib.impl_parse(case)
     if p == 'command':
         return optlib.impl_command(case)
-    if p == 'main':
+    if p in ('main', 'premain'):
         return optlib.impl_main(case, workdir)
     if p == 'task':
         return optlib.impl_task(case)
@@ -197,6 +236,8 @@ def eval_cases(cases):
             reqs.append(spec_request(c))
         else:
             idx.append(None)
+        for name, r in sorted(aux_requests(c).items()):
+            reqs.append(r)
     answers = common.drv_batch(reqs)
     out = []
     k = 0
@@ -207,6 +248,12 @@ def eval_cases(cases):
         if si is not None:
             spec = answers[si]
             k += 1
+        aux = {}
+        for name, r in sorted(aux_requests(c).items()):
+            aux[name] = answers[k]
+            k += 1
+        if aux:
+            model['_aux'] = aux
         for a in (model, spec):
             if a is not None and 'error' in a:
                 raise RuntimeError('driver rejected a request: %s / %s' % (a, json.dumps(c)[:600]))
@@ -242,11 +289,17 @@ def judge(case, impl, model, spec):
     viol, div = [], []
     path = case['path']
     r1 = impl.get('res')
+    if path == 'premain' and not model.get('pre_ok'):
+        return viol, div            # the tokens in front of the command name do not parse as loader options: not generated
+    loader_names = set(o['name'] for o in case.get('lspec') or [])
     # ---- (K)
     if not same_result(r1, model['res'], case):
         div.append('M4/%s: result differs: impl %s model %s' % (path, canon(res_key(r1))[:300],
                                                                canon(res_key(model['res']))[:300]))
-    if path == 'main' and 'exit' in impl and impl['exit'] != model.get('exit'):
+    if path == 'premain' and 'ok' in (r1 or {}) and not same_result(impl.get('setup'), model.get('setup'), case):
+        div.append('M4/premain: parameters handed to loader.setup differ: impl %s model %s'
+                   % (canon(res_key(impl.get('setup')))[:300], canon(res_key(model.get('setup')))[:300]))
+    if path in ('main', 'premain') and 'exit' in impl and impl['exit'] != model.get('exit'):
         div.append('M4/main: DoitMain.run ended with %s, the model with exit %s' % (impl['exit'], model.get('exit')))
     if path in ('parse', 'realcmd') and not impl.get('ctor'):
         if not same_result(impl.get('res2'), model['res2'], case):
@@ -307,6 +360,8 @@ def judge(case, impl, model, spec):
         else:
             got = dict((n, v) for n, v in r1['ok']['vals'])
             for n, v in exp['vals']:
+                if n in loader_names:
+                    continue        # loader options of the premain path are judged where the loader receives them (below)
                 if got.get(n, '<missing>') != v:
                     viol.append(('precedence' if (case['env'] or case['ini'] or case['glob'] or case['dodo'])
                                  else 'roundtrip',
@@ -314,7 +369,47 @@ def judge(case, impl, model, spec):
                     break
             if path != 'creator' and r1['ok']['pos'] != exp['pos']:
                 viol.append(('roundtrip', 'positional arguments changed: got %s expected %s' % (r1['ok']['pos'], exp['pos'])))
+    # ---- (P) loader options: written in front of the command name, or resolved by precedence, as loader.setup sees them
+    aux = model.get('_aux') or {}
+    if (path == 'premain' and aux and spec is not None and not case.get('malformed') and wf and spec['hyp_ok']
+            and aux['pre']['hyp_ok'] and aux['nodod']['hyp_ok'] and 'vals' in aux['pre']['expect']
+            and 'vals' in aux['nodod']['expect'] and 'ok' in (r1 or {}) and impl.get('setup')):
+        got = dict((n, v) for n, v in impl['setup']['ok']['vals'])
+        written_pre = refs_of(case['pre_asgs'], case['lspec'])
+        written_post = refs_of(case['asgs'], case['lspec'])
+        pre_val = dict((n, v) for n, v in aux['pre']['expect']['vals'])
+        prec_val = dict((n, v) for n, v in aux['nodod']['expect']['vals'])
+        for o in case['lspec']:
+            n = o['name']
+            if n in written_pre and n in written_post:
+                continue            # written on both sides of the command name: the property does not say which is "last"
+            want = pre_val[n] if n in written_pre else prec_val[n]
+            if got.get(n, '<missing>') != want:
+                viol.append(('precedence', 'loader option %r %s: loader.setup received %s, the property gives %s'
+                             % (n, 'written before the command name' if n in written_pre else 'not written before the command name',
+                                canon(got.get(n, '<missing>')), canon(want))))
+                break
     return viol, div
+
+
+def refs_of(asgs, opts):
+    """names of the options (of `opts`) a list of exact-name assignments writes"""
+    by_short = dict((o['short'], o['name']) for o in opts if o['short'])
+    by_long = {}
+    for o in opts:
+        if o['long']:
+            by_long[o['long']] = o['name']
+            if o['inverse']:
+                by_long[o['inverse']] = o['name']
+    out = set()
+    for a in asgs or []:
+        if a[0] == 'flags':
+            out.update(by_short[c] for c in a[1] if c in by_short)
+        elif a[0] in ('sAtt', 'sDet'):
+            out.update(by_short[c] for c in a[1] + a[2] if c in by_short)
+        elif a[1] in by_long:
+            out.add(by_long[a[1]])
+    return out
 
 
 def nontrivial(case, impl):
@@ -373,15 +468,20 @@ def shrink(case, label, cap=120):
             c = json.loads(json.dumps(cur))
             c['prev_argv'] = None
             cands.append(c)
+        for i in range(len(cur.get('pre_asgs') or [])):
+            c = json.loads(json.dumps(cur))
+            del c['pre_asgs'][i]
+            c['pre'] = optlib.render(c['pre_asgs'], False, [])
+            cands.append(c)
         for fld in ('env', 'ini', 'glob', 'dodo'):
             for i in range(len(cur[fld])):
                 c = json.loads(json.dumps(cur))
                 del c[fld][i]
                 cands.append(c)
         used = json.dumps([cur['argv'], cur['asgs']])
-        for i in range(cur['n_base'], len(cur['spec'])):
+        for i in range(cur['n_base'] + len(cur.get('lspec') or []), len(cur['spec'])):   # loader options stay
             o = cur['spec'][i]
-            if len(cur['spec']) - cur['n_base'] <= 1:
+            if len(cur['spec']) - cur['n_base'] - len(cur.get('lspec') or []) <= 1:
                 break
             if any(o['name'] == e[0] for f in ('ini', 'glob', 'dodo') for e in cur[f]):
                 continue
@@ -467,7 +567,7 @@ def witness_of(case, impl, model, spec, label, note):
 def account(st, case, impl, model, spec):
     st.case({'path': case['path'], 'cmd': case.get('cmd'), 'spec': [[o['name'], o['type'], o['short'], o['long'], o['inverse']] for o in case['spec'][case['n_base']:]],
              'argv': case['argv'], 'env': case['env'], 'ini': case['ini'], 'dodo': case['dodo'],
-             'prev': case.get('prev_argv')},
+             'prev': case.get('prev_argv'), 'pre': case.get('pre')},
             nontrivial(case, impl))
     st.traces += 1
     st.count('path:' + case['path'] + (('/config-' + case['ini_mode']) if case['path'] == 'main' else ''))
@@ -482,7 +582,7 @@ def account(st, case, impl, model, spec):
         st.count('form:' + a[0] + ('+cluster' if a[0] in ('sAtt', 'sDet') and a[1] else ''))
     for o in case['spec'][case['n_base']:]:
         st.count('type:' + o['type'])
-    r = model['res']
+    r = model.get('res') or {'err': 'pre-command-part-not-parsed'}
     st.count('result:' + ('ok' if 'ok' in r else 'err-' + r['err']))
     st.count('wf:%s' % model.get('wf'))
     if spec is not None:
@@ -492,6 +592,12 @@ def account(st, case, impl, model, spec):
             st.count('monitor:expect-' + ('err' if 'err' in spec['expect'] else 'ok'))
     src = ''.join(t for t, f in (('E', 'env'), ('I', 'ini'), ('G', 'glob'), ('D', 'dodo')) if case[f])
     st.count('sources:' + (src or '-') + ('+argv' if case['argv'] else ''))
+    if case['path'] == 'premain':
+        st.count('premain:pre_ok:%s' % model.get('pre_ok'))
+        st.count('premain:loader.setup-observed:%s' % bool(impl.get('setup')))
+        st.count('premain:pre-options:%d' % len(case['pre_asgs']))
+        both = refs_of(case['pre_asgs'], case['lspec']) & set(o['name'] for o in case['lspec'] if o['env_var'] in [e[0] for e in case['env']])
+        st.count('premain:pre-option-also-in-env:%s' % bool(both))
     if case['sep']:
         st.count('sep')
     if case.get('prev_argv') is not None:
@@ -580,7 +686,7 @@ def corpus_cases():
 
 def with_base(case, base):
     """corpus cases of the main path are written without the base options"""
-    if case['path'] == 'main' and case['n_base'] == 0:
+    if case['path'] in ('main', 'premain') and case['n_base'] == 0:
         case = dict(case)
         case['spec'] = base + case['spec']
         case['n_base'] = len(base)
@@ -637,6 +743,8 @@ def replay(ctx, data):
     print('path    :', c['path'])
     print('options :', json.dumps(c['spec'][c['n_base']:]))
     print('env     :', c['env'], ' config section:', c['ini'], ' GLOBAL:', c['glob'], ' DOIT_CONFIG:', c['dodo'])
+    if c.get('pre') is not None:
+        print('loader options %s; written before the command name: %s' % (json.dumps(c['lspec']), c['pre']))
     if c.get('prev_argv') is not None:
         print('earlier :', c['prev_argv'], '(handled first by the same parser / command object / process)')
     print('argv    :', c['argv'])
